@@ -63,7 +63,7 @@ impl DetectProp for C02 {
         c
     }
     fn directed(&self, thorough: bool) -> Vec<Case> {
-        let mut v = vec![];
+        let mut v = large_unicode_cases(thorough);
         // > 1 MB ASCII with a non-ASCII byte in the tail, trace logger on (the repaired unwrap_err site)
         let mut b: Vec<u8> = std::iter::repeat(*b"plain ascii text, nothing to see here. ").take(1_000_100 / 39 + 1).flatten().collect();
         b.truncate(1_000_100);
